@@ -71,9 +71,21 @@ PackRaw(s) ==
      SBit(s, 8*(k-1))       + 2 * SBit(s, 8*(k-1)+1)  + 4 * SBit(s, 8*(k-1)+2)  + 8 * SBit(s, 8*(k-1)+3)
    + 16 * SBit(s, 8*(k-1)+4) + 32 * SBit(s, 8*(k-1)+5) + 64 * SBit(s, 8*(k-1)+6) + 128 * SBit(s, 8*(k-1)+7)]
 
+\* the same octets computed from two septets per octet: octet k (0-based) holds the upper part
+\* of septet j = (8k) div 7 and the lower part of septet j+1.  Equal to PackRaw (checked by
+\* TLC in MC_Gsm7: FastIsDef); used where long messages are judged.
+PackFast(s) ==
+  LET n == Len(s) IN
+  [k \in 1..PackedLen(n) |->
+     LET j == (8 * (k - 1)) \div 7
+         r == (8 * (k - 1)) % 7
+         a == IF j < n THEN s[j + 1] \div P2(r) ELSE 0
+         b == IF j + 1 < n THEN (s[j + 2] % P2(r + 1)) * P2(7 - r) ELSE 0
+     IN a + b]
+
 \* seven spare bits in the last octet are filled with CR
 Pack(s) ==
-  LET raw == PackRaw(s) n == Len(s) IN
+  LET raw == PackFast(s) n == Len(s) IN
   IF n % 8 = 7 THEN [raw EXCEPT ![Len(raw)] = raw[Len(raw)] + 2 * CR] ELSE raw
 
 \* unpacking when the septet count is known, as a handset does
